@@ -2,6 +2,8 @@ package main
 
 import (
 	"fmt"
+	"go/token"
+	"go/types"
 	"sort"
 	"strings"
 
@@ -473,5 +475,82 @@ func (c *Ctx) ruleMethodValue() {
 	rep.Extra["reflective_method_lookups"] = n
 	if n == 0 {
 		rep.ok("R-REFL", "package", "method lookup on a Value", "?", "no reflective method lookup in the package")
+	}
+}
+
+// ruleIfaceCompare: comparing two interface values with == or != panics at
+// run time when both hold the same uncomparable dynamic type (a slice-, map-
+// or func-based user type).  Every such comparison in the package must have a
+// nil constant on one side, or operands whose static types rule that out.
+// ifaceCmpConfirmed: comparisons of two interface values judged safe by
+// reading; keyed by function and construct, one reason each.  Any other
+// site (new, or moved to another function) is reported.
+var ifaceCmpConfirmed = map[string]string{
+	"channelsEqual:interface comparison#2": "both operands have just passed the Kind()==Chan test (the function returns before this line otherwise): channels are comparable",
+	"uuptrsEqual:interface comparison":     "operands are Interface() of Values whose kind is Uintptr or UnsafePointer (the only kinds matchExtra hands to this function): comparable",
+}
+
+func (c *Ctx) ruleIfaceCompare() {
+	rep := c.rep
+	n := 0
+	for _, fn := range c.p.Funcs {
+		ord := newOrdinal()
+		for _, b := range fn.Blocks {
+			for _, in := range b.Instrs {
+				bo, ok := in.(*ssa.BinOp)
+				if !ok || (bo.Op != token.EQL && bo.Op != token.NEQ) {
+					continue
+				}
+				_, xi := bo.X.Type().Underlying().(*types.Interface)
+				_, yi := bo.Y.Type().Underlying().(*types.Interface)
+				if !xi && !yi {
+					continue
+				}
+				isNil := func(v ssa.Value) bool {
+					k, ok := v.(*ssa.Const)
+					return ok && k.IsNil()
+				}
+				if isNil(bo.X) || isNil(bo.Y) {
+					continue
+				}
+				n++
+				construct := ord.next("interface comparison")
+				pos := c.p.instrPos(in)
+				// a MakeInterface of a comparable static type on either side keeps the comparison safe
+				safe := false
+				for _, v := range []ssa.Value{bo.X, bo.Y} {
+					if mi, ok := v.(*ssa.MakeInterface); ok && types.Comparable(mi.X.Type()) {
+						if _, isIface := mi.X.Type().Underlying().(*types.Interface); !isIface {
+							safe = true
+						}
+					}
+				}
+				why := ""
+				for _, v := range []ssa.Value{bo.X, bo.Y} {
+					if nt, ok := v.Type().(*types.Named); ok && nt.Obj().Pkg() != nil && nt.Obj().Pkg().Path() == "reflect" && nt.Obj().Name() == "Type" {
+						why = "reflect.Type values are pointers to type descriptors: always comparable"
+					}
+					if ld, ok := v.(*ssa.UnOp); ok && ld.Op == token.MUL {
+						if g, ok := ld.X.(*ssa.Global); ok && g.Pkg != fn.Pkg {
+							why = "compared with the library sentinel " + g.Pkg.Pkg.Name() + "." + g.Name() + ", whose dynamic type is comparable"
+						}
+					}
+				}
+				if r, ok := ifaceCmpConfirmed[relName(fn)+":"+construct]; ok {
+					why = r
+				}
+				if safe {
+					rep.ok("R-IFACECMP", relName(fn), construct, pos, "one operand has a comparable concrete type: the comparison cannot panic")
+				} else if why != "" {
+					rep.ok("R-IFACECMP", relName(fn), construct, pos, why)
+				} else {
+					rep.bad("R-IFACECMP", relName(fn), construct, pos, "two interface values are compared with "+bo.Op.String()+": this panics when both hold the same uncomparable dynamic type (e.g. a slice-based user Operator or element)")
+				}
+			}
+		}
+	}
+	rep.Extra["interface_comparisons"] = n
+	if n == 0 {
+		rep.ok("R-IFACECMP", "package", "interface comparison", "?", "no comparison of two non-nil interface values in the package")
 	}
 }
